@@ -1421,7 +1421,7 @@ class Executor:
         if unit_module[virtual_address] is None:
             if physical_address is None:
                 physical_address = self._get_unused_physical_qubit()
-                self._used_physical_qubit_addresses.add(physical_address)
+            self._used_physical_qubit_addresses.add(physical_address)
             unit_module[virtual_address] = physical_address
             self._reserve_physical_qubit(physical_address)
             return physical_address
@@ -1634,7 +1634,6 @@ class Executor:
             f"Virtual qubit address {virtual_address} will now be mapped to "
             f"physical address {physical_address}"
         )
-        self._used_physical_qubit_addresses.add(physical_address)
         self._allocate_physical_qubit(
             subroutine_id=subroutine_id,
             virtual_address=virtual_address,
